@@ -50,12 +50,12 @@ FIELD_REQUIRED = {
     "C01": ["add:no_carry", "add:one_carry", "add:two_carries", "sub:no_borrow", "sub:one_borrow", "sub:two_borrows",
             "mul:carry0_borrow0", "mul:carry0_borrow1", "mul:carry1_borrow0", "mul:carry1_borrow1", "mul:hi_zero",
             "mul:hi_lo_ffffffff", "mul:hi_hi_ffffffff", "inc:plus1", "inc:wrap_to_zero", "inc:via_add", "dec:minus1", "dec:wrap",
-            "in:noncanonical_operand", "out:noncanonical_result", "alias:pairs_checked", "oracle:gmp_crosschecks", "family:concurrent_callers"],
+            "in:noncanonical_operand", "out:noncanonical_result", "alias:pairs_checked", "oracle:gmp_crosschecks", "family:concurrent_callers", "family:literal_operand_call_sites"],
     "C10": ["family:inv_directed", "family:inv_random", "inv:noncanonical_operand", "exp:exponent_zero", "exp:exponent_one",
             "exp:general", "exp:noncanonical_base", "exp:zero_base", "refusal:cases", "refusal:cases_after_successful_inversions", "family:concurrent_callers"],
     "C15": ["fromS32:int32_min", "fromS32:negative", "fromS64:negative", "fromS64:beyond_centred_range", "fromString:below_minus_p",
             "fromString:negative", "fromString:above_p", "fromString:non_decimal_radix", "toS32:int32_min", "toS32:int32_max",
-            "toS32:out_of_range", "equal:alias_pairs", "out:noncanonical_representation", "toString:radix_checked", "family:concurrent_callers", "fromString:same_literal_in_consecutive_radices"],
+            "toS32:out_of_range", "equal:alias_pairs", "out:noncanonical_representation", "toString:radix_checked", "family:concurrent_callers", "fromString:same_literal_in_consecutive_radices", "forms:result_is_the_operand_word"],
 }
 
 
@@ -86,12 +86,12 @@ def check_field(prop, tier, seed, work, t0):
 
 
 # ------------------------------------------------------------------------------------------ C02 / C11 / C13 / C14
-LANE_REQUIRED = ["family:fixed_x_fixed", "family:small_grid", "family:solve_sum", "family:product_target", "family:mixed_random", "family:concurrent_callers",
+LANE_REQUIRED = ["build:march_native_processes", "family:fixed_x_fixed", "family:small_grid", "family:solve_sum", "family:product_target", "family:mixed_random", "family:concurrent_callers",
                  "lane:a_noncanonical_canonicalised", "lane:add_overflow_corrected", "lane:add_no_overflow", "lane:small_equal_high_halves",
                  "lane:small_low_half_carry", "lane:sub_underflow_corrected", "lane:sub_no_underflow", "lane:true_sum_or_diff_noncanonical_band",
                  "lane:b_equals_0xFFFFFFFF00000000", "lane:mul_hi_lo_ffffffff", "lane:mul_hi_hi_ffffffff", "lane:mul_hi_zero",
                  "lane:load_store_set_shift_checked", "lane:in_place_call_forms"]
-MAT_REQUIRED = ["forms:result_register_is_state_register", "forms:changed_matrix_at_the_same_address", "family:concurrent_callers", "band:probed_lane_products_noncanonical", "band:probed_two_or_more_noncanonical_addends_in_one_lane",
+MAT_REQUIRED = ["build:march_native_processes", "forms:result_register_is_state_register", "forms:changed_matrix_at_the_same_address", "forms:coefficient_array_of_exact_extent", "family:concurrent_callers", "band:probed_lane_products_noncanonical", "band:probed_two_or_more_noncanonical_addends_in_one_lane",
                 "band:state_positions_with_product_in_[p,2^64)"] + \
     ["matfam:%s:%s" % (f, w) for f in ("uniform", "boundary", "band_directed", "three_times_5555", "quotient_like", "low_word_8bit_high_word_set", "coefficients_below_2^32") for w in ("8bit", "full")]
 LANE_RULE = ("every lane of every call carries a different operand pair (lane position rotated per call); pairs from the fixed boundary set "
@@ -119,6 +119,7 @@ def check_vec(prop, tier, seed, work, t0):
     bins = vfw.build_many(work, [
         {"name": "vecops-prod" + sfx, "flavour": "prod" + sfx, "srcs": [H("vecops.cpp")], "libsrcs": ["goldilocks_base_field.cpp"]},
         {"name": "vecops-asan" + sfx, "flavour": "asan" + sfx, "srcs": [H("vecops.cpp")], "libsrcs": ["goldilocks_base_field.cpp"]},
+        {"name": "vecops-native" + sfx, "flavour": "native" + sfx, "srcs": [H("vecops.cpp")], "libsrcs": ["goldilocks_base_field.cpp"]},
     ])
     res = vfw.Results()
     th = tier == "thorough"
@@ -132,6 +133,10 @@ def check_vec(prop, tier, seed, work, t0):
         required, rule = MAT_REQUIRED, MAT_RULE
     res.merge(vfw.run_shards(work, bins["vecops-prod" + sfx], prop, tier, seed, NCPU, a_prod, tag="prod" + sfx, timeout=7200 if th else 1500))
     res.merge(vfw.run_shards(work, bins["vecops-asan" + sfx], prop, tier, seed + 1000003, NCPU, a_asan, tag="asan" + sfx, timeout=7200 if th else 1500))
+    # the same workload compiled with -march=native (a build configuration users choose; enables code guarded by finer ISA macros)
+    rn = vfw.run_shards(work, bins["vecops-native" + sfx], prop, tier, seed + 2000003, NCPU, a_asan if not th else a_prod, tag="native" + sfx, timeout=7200 if th else 1500)
+    rn.counters["build:march_native_processes"] = NCPU
+    res.merge(rn)
     return vfw.finalize(prop, tier, seed, res, t0, rule, assumptions=ASSUME_COMMON, required=required,
                         replay_info={"harness": "vecops.cpp", "how": "./check %s --replay <file>" % prop})
 
@@ -240,7 +245,7 @@ POS_REQUIRED = {
     "C06": ["family:uniform", "family:all_boundary", "family:single_hot_boundary", "family:mixed_g64", "family:inverse_constructed_round0",
             "family:inverse_constructed_round1", "family:inverse_constructed_round2", "family:inverse_constructed_P_layer", "family:inverse_constructed_partial_round",
             "family:inverse_constructed_second_half", "in:noncanonical_state_element", "backend:avx512_pairs", "forms:chained_in_place_calls",
-            "oracle:known_answers_checked", "tables:pinned_hash_checked", "family:concurrent_callers"],
+            "oracle:known_answers_checked", "tables:pinned_hash_checked", "family:concurrent_callers", "coldstart:first_use_is_concurrent"],
     "C07": ["len:zero", "len:passthrough(<=4)", "len:threshold_4_5", "len:single_block", "len:multiple_of_8", "len:ragged_last_block", "len:long", "len:beyond_2^24_elements", "oracle:fast_arithmetic_crosschecked",
             "arena:guard_page_after_input", "arena:guard_page_before_input", "backend:avx512", "oracle:known_answers_checked", "tables:pinned_hash_checked", "family:concurrent_callers"] +
            ["len:residue_mod8_%d" % i for i in range(8)],
@@ -252,11 +257,32 @@ POS_REQUIRED = {
 }
 
 
+_FLAT = {}
+
+
+def have_flat_tables():
+    """the flattened copies M_/P_ of the Poseidon matrices are an implementation detail: the harness checks them when the tree has them
+    (decided by a syntax-only compile probe against the current tree)"""
+    if vfw.REPO in _FLAT:
+        return _FLAT[vfw.REPO]
+    import subprocess
+    probe = ('#include "poseidon_goldilocks.hpp"\n'
+             'unsigned long long f() { return PoseidonGoldilocksConstants::M_[0].fe + PoseidonGoldilocksConstants::P_[143].fe; }\n')
+    try:
+        r = subprocess.run(["g++", "-std=gnu++17", "-fsyntax-only", "-mavx2", "-fopenmp", "-I" + os.path.join(vfw.REPO, "src"), "-x", "c++", "-"],
+                           input=probe, text=True, capture_output=True, timeout=300)
+        _FLAT[vfw.REPO] = 1 if r.returncode == 0 else 0
+    except Exception:
+        _FLAT[vfw.REPO] = 1
+    return _FLAT[vfw.REPO]
+
+
 @reg("C06", "C07", "C08")
 def check_poseidon(prop, tier, seed, work, t0):
     if not vfw.have_avx512():
         raise vfw.Inconclusive("this CPU has no AVX-512F; the AVX-512 backends of %s cannot be executed" % prop)
-    bins = vfw.build_many(work, [{"name": "pos-" + fl, "flavour": fl, "srcs": [H("poseidon.cpp")], "libsrcs": POS_LIBS}
+    have_flat = have_flat_tables()
+    bins = vfw.build_many(work, [{"name": "pos-" + fl, "flavour": fl, "srcs": [H("poseidon.cpp")], "libsrcs": POS_LIBS, "defs": ["-DVERIF_HAVE_FLAT_TABLES=%d" % have_flat]}
                                  for fl in ("prod", "prod512", "asan", "asan512")])
     th = tier == "thorough"
     to = 10800 if th else 1500
@@ -291,7 +317,7 @@ C09_RULE = ("coefficient triples: all 12^6 pairs over the 12-value boundary set 
             "1000, 50000, 174762, 174763, 400000 (+3*10^6 thorough), in place and out of place, each in its own forked child; isOne on all 8 representations of (1,0,0) and on "
             "elements differing from one in exactly one coefficient. distinct = hash of the operand pair / index in the exhaustive family (capped set).")
 C09_REQUIRED = ["family:boundary_triples_12^6", "family:boundary_triples_exhaustive_shards", "family:random_triples", "family:inv_structured", "forms:aliasing_checked",
-                "forms:mulScalar_string", "in:noncanonical_coefficient", "in:element_with_zero_coefficients", "in:base_field_element(b=c=0)", "inv:no_zero_coefficient",
+                "forms:mulScalar_string", "forms:mulScalar_string_beyond_64_bits", "in:noncanonical_coefficient", "in:element_with_zero_coefficients", "in:base_field_element(b=c=0)", "inv:no_zero_coefficient",
                 "inv:one_zero_coefficient", "inv:two_zero_coefficients", "isOne:representations_of_one", "isOne:one_coefficient_off", "isOne:true_cases",
                 "batchInverse:every_length_1..130", "batchInverse:long", "batchInverse:beyond_8MiB_of_temporaries", "family:concurrent_callers"]
 
@@ -408,19 +434,19 @@ def check_memsan(prop, tier, seed, work, t0):
     jobs = [
         {"name": "ntt-asan", "flavour": "asan", "srcs": [H("ntt.cpp")], "libsrcs": NTT_LIBS},
         {"name": "ntt-asanshim", "flavour": "asanshim", "srcs": [H("ntt.cpp")], "libsrcs": NTT_LIBS},
-        {"name": "pos-asan", "flavour": "asan", "srcs": [H("poseidon.cpp")], "libsrcs": POS_LIBS},
-        {"name": "pos-asan512", "flavour": "asan512", "srcs": [H("poseidon.cpp")], "libsrcs": POS_LIBS},
+        {"name": "pos-asan", "flavour": "asan", "srcs": [H("poseidon.cpp")], "libsrcs": POS_LIBS, "defs": ["-DVERIF_HAVE_FLAT_TABLES=%d" % have_flat_tables()]},
+        {"name": "pos-asan512", "flavour": "asan512", "srcs": [H("poseidon.cpp")], "libsrcs": POS_LIBS, "defs": ["-DVERIF_HAVE_FLAT_TABLES=%d" % have_flat_tables()]},
         {"name": "cubic-asan", "flavour": "asan", "srcs": [H("cubic.cpp")], "libsrcs": cub},
         {"name": "vec-asan", "flavour": "asan", "srcs": [H("vecops.cpp")], "libsrcs": ["goldilocks_base_field.cpp"]},
         {"name": "vec-asan512", "flavour": "asan512", "srcs": [H("vecops.cpp")], "libsrcs": ["goldilocks_base_field.cpp"]},
         {"name": "life-asan", "flavour": "asan", "srcs": [H("lifetimes.cpp")], "libsrcs": allib},
         {"name": "ntt-vg", "flavour": "vgshim", "srcs": [H("ntt.cpp")], "libsrcs": NTT_LIBS, "defs": ["-DVERIF_PLAIN_MALLOC"]},
-        {"name": "pos-vg", "flavour": "vgshim", "srcs": [H("poseidon.cpp")], "libsrcs": POS_LIBS, "defs": ["-D__SANITIZE_ADDRESS__=1"]},
+        {"name": "pos-vg", "flavour": "vgshim", "srcs": [H("poseidon.cpp")], "libsrcs": POS_LIBS, "defs": ["-D__SANITIZE_ADDRESS__=1", "-DVERIF_HAVE_FLAT_TABLES=%d" % have_flat_tables()]},
         {"name": "cubic-vg", "flavour": "vg", "srcs": [H("cubic.cpp")], "libsrcs": cub},
     ]
     for ab in ("A", "B"):
         jobs += [{"name": "ntt-fill" + ab, "flavour": "fill" + ab + "shim", "srcs": [H("ntt.cpp")], "libsrcs": NTT_LIBS, "defs": ["-DVERIF_PLAIN_MALLOC"]},
-                 {"name": "pos-fill" + ab + "512", "flavour": "fill" + ab + "512", "srcs": [H("poseidon.cpp")], "libsrcs": POS_LIBS, "defs": ["-D__SANITIZE_ADDRESS__=1"]},
+                 {"name": "pos-fill" + ab + "512", "flavour": "fill" + ab + "512", "srcs": [H("poseidon.cpp")], "libsrcs": POS_LIBS, "defs": ["-D__SANITIZE_ADDRESS__=1", "-DVERIF_HAVE_FLAT_TABLES=%d" % have_flat_tables()]},
                  {"name": "cubic-fill" + ab, "flavour": "fill" + ab, "srcs": [H("cubic.cpp")], "libsrcs": cub}]
     wtrials = 20000 if th else 1000
     j16, r16 = props_c16.asan_results(tier, seed, work, wtrials)
